@@ -318,6 +318,20 @@ def scen_reparse(fi, as_key_too):
     import ast as _ast
     devs = []
     txt = MUTABLE_FRAGS[vfw.prelude.pick(fi, len(MUTABLE_FRAGS))]
+    as_key_too = bool(as_key_too)
+    if vfw.prelude.tracing():
+        # the engine makes functools.lru_cache transparent (it skips caches to keep paths independent), which would hide exactly the
+        # cross-call state this scenario is about; with the inputs already concrete, the body runs natively
+        from crosshair.tracers import NoTracing
+        with NoTracing():
+            return _reparse_native(txt, as_key_too)
+    return _reparse_native(txt, as_key_too)
+
+
+def _reparse_native(txt, as_key_too):
+    global LAST_INFO
+    import ast as _ast
+    devs = []
     exp = _ast.literal_eval(txt)
     r1 = parse_to_dict([('a', txt), ('b', txt)])
     v1, v1b = r1.get('a'), r1.get('b')
